@@ -20,7 +20,8 @@ EXPLANATION = (
     "not None`; (3) pooling – get_scene_result walks self.frame_results in order and per target label appends "
     "divide_objects(frame.object_results)[label] and adds divide_objects_to_num(frame.frame_ground_truth.objects)[label] (the same two "
     "dividers as the per-frame path), then scores the pooled dicts with a fresh MetricsScore; MetricsScore accumulates ground-truth "
-    "counts with += only. Does not decide: equality of pooled and recomputed scores, order-independence of AP, determinism as behaviour."
+    "counts with += only; (4) the pooled per-frame lists handed to Ap are flattened and ranked exactly once as a whole by confidence (rule shared with C04) - a per-frame "
+    "ranking would make the scene score depend on frame order. Does not decide: equality of pooled and recomputed scores as values, tie behaviour, determinism as behaviour."
 )
 
 MGR = "manager.perception_evaluation_manager.PerceptionEvaluationManager."
@@ -229,3 +230,5 @@ def run(ctx: Ctx) -> None:
     ctx.run(rule_ownership)
     ctx.run(rule_history)
     ctx.run(rule_pooling)
+    from rules import C04
+    ctx.run(C04.rule_ranking)  # the pooled (nested, per-frame) results are flattened and ranked ONCE as a whole: the scene score cannot depend on frame order
